@@ -382,6 +382,29 @@ def run(ctx):
         bad = gens.spanning_tree(r, c, e)
         if bad: ctx.violate(f"gen_wilson {r}x{c} did not return a spanning tree: {bad}", dict(rows=r, cols=c, draws=t.draws, edges=e))
         pending.append((r, c, e, t, dict(op="C19.run", rows=r, cols=c, draws=t.draws)))
+    # the caller's objects: (a) arrays handed out by the public helper get_neighbors_in_bounds are the caller's to edit; (b) ONE shape array
+    # object re-used and changed in place between calls (a size sweep). Neither may influence later runs.
+    try:
+        from maze_dataset.generation.generators import get_neighbors_in_bounds, LatticeMazeGenerators as LG2
+        for cell, shp in (((0, 1), (2, 3)), ((1, 1), (3, 3)), ((0, 0), (2, 2)), ((1, 0), (3, 2))):
+            nb = get_neighbors_in_bounds(np.array(cell), np.array(shp))
+            if len(nb): nb[:] = nb[0]
+        shape = np.array([2, 2])
+        for step in range(6):
+            np.random.seed(ctx.rng.randrange(2**32))
+            with WTap() as t:
+                m = LG2.gen_wilson(shape)
+            r, c = int(shape[0]), int(shape[1])
+            e = gens.edges_of(m.connection_list)
+            ctx.case([r, c, "reused-shape-array", t.draws], nontrivial=True); ctx.count("reused_shape_array_runs")
+            bad = gens.spanning_tree(r, c, e)
+            if bad or list(m.connection_list.shape) != [2, r, c]:
+                ctx.violate(f"gen_wilson called with a shape array that had been changed in place to {r}x{c} (same array object as the previous call) did not return a spanning tree "
+                            f"of that grid: {bad or 'wrong array shape ' + str(m.connection_list.shape)}", dict(rows=r, cols=c, draws=t.draws, edges=e))
+            pending.append((r, c, e, t, dict(op="C19.run", rows=r, cols=c, draws=t.draws)))
+            shape[step % 2] += 1 if step < 3 else -1
+    except TooManyDraws:
+        ctx.disagree("gen_wilson did not finish on a re-used shape array", dict())
     # very long walks (a legal execution however unlikely): any step budget / cap / restart logic shows here
     for (r, c) in [(2, 2), (2, 3), (3, 3), (4, 4), (3, 6)] + ([] if ctx.quick else [(5, 5), (6, 6), (8, 8)]):
         sc = long_walk_script(r, c, 40 * r * c + 7)
